@@ -102,10 +102,27 @@ theorem late_attach_mapping {w : World} {req : Req} {m n : String} {b : Bool}
   · exact hm
   · simp [hm] at h
 
-/-- With nothing at arrival the dispatcher yields: a refusal, the source of a new bridge, or the poll's outcome. -/
+/-- Same for a bridge registered in the window before `handleTargetBridge`'s own look-up. -/
+theorem window_attach_mapping {w : World} {req : Req} {m : String}
+    (h : (handleTargetBridge w req (.window m)).attach ≠ .none) : m = req.MappingID := by
+  unfold handleTargetBridge at h
+  by_cases hm : m = req.MappingID
+  · exact hm
+  · simp [hm] at h
+
+theorem window_attach_not_source (w : World) (req : Req) (m : String) :
+    (handleTargetBridge w req (.window m)).attach ≠ .source := by
+  simp only [handleTargetBridge]
+  by_cases hm : m = req.MappingID <;> simp [hm]
+
+theorem handleSourceBridge_attach (late : Late) :
+    (handleSourceBridge late).attach = .source ∨ (handleSourceBridge late).attach = .none := by
+  cases late <;> simp [handleSourceBridge]
+
+/-- With nothing at arrival the dispatcher yields: a refusal, the source-side outcome, or the target-side one. -/
 theorem dyn_none_cases (w : World) (id : ConnIdent) (req : Req) (late : Late) :
     openTunnelDyn w id req .none late = refuse ∨
-    openTunnelDyn w id req .none late = ⟨.ok, .source, .switch⟩ ∨
+    openTunnelDyn w id req .none late = handleSourceBridge late ∨
     openTunnelDyn w id req .none late = handleTargetBridge w req late := by
   unfold openTunnelDyn findControlConnection
   by_cases hw : req.wellFormed = true
@@ -144,5 +161,31 @@ theorem entitled_of_passed {w : World} {id : ConnIdent} {req : Req} {ts : Tunnel
       · simp [hl]
       · simp [htg]
     rw [h1, h2, h3]; simp
+
+/-- No update un-revokes: it writes back the revocation flag it read, or sets it. -/
+theorem Update.apply_revoked (u : Update) (m : PortMapping) (h : m.IsRevoked = true) :
+    (u.apply m).IsRevoked = true := by
+  cases u <;> simp [Update.apply, h]
+
+theorem Update.apply_id (u : Update) (m : PortMapping) : (u.apply m).ID = m.ID := by
+  cases u <;> simp [Update.apply]
+
+theorem runSerial_revoked (us : List Update) (m : PortMapping) (h : m.IsRevoked = true) :
+    (runSerial us m).IsRevoked = true := by
+  induction us generalizing m with
+  | nil => simpa [runSerial] using h
+  | cons u us ih => simpa [runSerial, List.foldl] using ih (u.apply m) (u.apply_revoked m h)
+
+theorem runSerial_id (us : List Update) (m : PortMapping) : (runSerial us m).ID = m.ID := by
+  induction us generalizing m with
+  | nil => rfl
+  | cons u us ih => simpa [runSerial, List.foldl, Update.apply_id] using ih (u.apply m)
+
+theorem runSerial_append (a b : List Update) (m : PortMapping) :
+    runSerial (a ++ b) m = runSerial b (runSerial a m) := by
+  simp [runSerial, List.foldl_append]
+
+theorem revoked_unusable {now : Nat} {m : PortMapping} (h : m.IsRevoked = true) : mappingUsable now m = false := by
+  simp [mappingUsable, h]
 
 end Tunnox.C04
